@@ -78,6 +78,15 @@ class Pages(Files):
         ):
             filepath += ".html"
             stat_result, is_file = self.check_path_is_file(filepath)
+        elif (
+            stat_result is not None
+            and filepath is not None
+            and stat.S_ISDIR(stat_result.st_mode)
+            and environ.get("PATH_INFO", "").endswith("/")
+        ):
+            # a directory URL that already ends with "/" serves the index page
+            filepath = os.path.join(filepath, "index.html")
+            stat_result, is_file = self.check_path_is_file(filepath)
 
         if stat_result is not None:
             assert filepath is not None  # Just for type check
